@@ -81,6 +81,12 @@ def judge(ctx, prog, iface, scen, calls, pts, pvals, stats):
         if spec["kind"] == "function" and eb > 1e-6 * abs(ref) + 1e-290:
             stats["skipped"] += 1
             continue
+        pb = spec["output"].get("pbounds")
+        if pb and pvals and any(k in pb and abs(ref - pb[k]) <= 1e-9 * abs(pb[k]) + 16 * eb or mpgen.outside(pb, ref) for k in ("lo", "hi")):
+            # a changed parameter moved the law out of (or onto) the physical bounds of the output, which were derived
+            # from the default values: the call contract there is C38's subject
+            stats["skipped"] += 1
+            continue
         obs = mpgen.unf(c["v"])
         tol = tolerance(spec, ref, eb)
         err = abs(obs - ref) if obs == obs else float("inf")
